@@ -180,7 +180,7 @@ def run(ctx):
     for c in l.nodes:
         if c.get("k") == "call" and c.get("op") == "()" and expr_str(core(c.child("obj"))) == "resultFn":
             st = bfl.at_node(c) or frozenset()
-            cases = [a.split("=")[-1].split("::")[-1] for a, p in st if a.startswith("switch:result.status")]
+            cases = cfg.established_cases(st, want)
             val = expr_str(arg_nodes(c)[0])
             for cs in cases or ["?"]:
                 seen[cs] = val
